@@ -40,7 +40,9 @@ Section LockSerial.
   Notation serial_run := (Lock.serial_run oid data oid_eqb).
   Notation all_finished := (Lock.all_finished oid key data).
   Notation inv := (LockFacts.inv oid key data key_eqb hash).
-  Notation running_at := (LockFacts.running_at oid key data).
+  Notation running_at := (Lock.running_at oid key data).
+  Notation sys_equiv := (Lock.sys_equiv oid key data).
+  Notation acquired := (@Lock.acquired data).
   Notation step_cases := (LockFacts.step_cases oid key data oid_eqb key_eqb hash key_eqb_spec).
   Notation inv_step := (LockFacts.inv_step oid key data oid_eqb key_eqb hash key_eqb_spec).
   Notation mutex_keys := (LockFacts.mutex_keys oid key data key_eqb hash).
@@ -80,7 +82,7 @@ Section LockSerial.
         apply (LockFacts.lock_iff_running oid key data key_eqb hash st _ I).
         exists j, y, q. split; [exact Hr|reflexivity]. }
       split; [reflexivity|]. intros o.
-      unfold LockFacts.running_at. cbn [Lock.apply_action store ops pcs acq_log].
+      unfold Lock.running_at. cbn [Lock.apply_action store ops pcs acq_log].
       rewrite serial_data_snoc. unfold Lock.serial_step. rewrite Eo.
       destruct (S o) as [S1 S2]. split.
       + intros j y p [Ho Hp] Hy. destruct (Nat.eq_dec i j) as [<-|N].
@@ -101,7 +103,7 @@ Section LockSerial.
         rewrite nth_error_upd_nth_neq; [exact Hp|]. intros <-. rewrite Ep in Hp. discriminate.
     - (* failed acquire *)
       split; [reflexivity|]. intros o.
-      unfold LockFacts.running_at. cbn [Lock.apply_action store ops pcs acq_log].
+      unfold Lock.running_at. cbn [Lock.apply_action store ops pcs acq_log].
       destruct (S o) as [S1 S2]. split.
       + intros j y p [Ho Hp] Hy. destruct (Nat.eq_dec i j) as [<-|N].
         * erewrite nth_error_upd_nth_eq in Hp by exact Ep. discriminate.
@@ -111,7 +113,7 @@ Section LockSerial.
     - (* data step *)
       assert (Hri : running_at st i x (Step u next)) by (split; assumption).
       split; [reflexivity|]. intros o.
-      unfold LockFacts.running_at. cbn [Lock.apply_action store ops pcs acq_log].
+      unfold Lock.running_at. cbn [Lock.apply_action store ops pcs acq_log].
       destruct (S o) as [S1 S2]. split.
       + intros j y p [Ho Hp] Hy. destruct (Nat.eq_dec i j) as [<-|N].
         * rewrite Eo in Ho. injection Ho as <-.
@@ -135,7 +137,7 @@ Section LockSerial.
     - (* release *)
       assert (Hri : running_at st i x (Done out)) by (split; assumption).
       split; [reflexivity|]. intros o.
-      unfold LockFacts.running_at. cbn [Lock.apply_action store ops pcs acq_log].
+      unfold Lock.running_at. cbn [Lock.apply_action store ops pcs acq_log].
       destruct (S o) as [S1 S2]. split.
       + intros j y p [Ho Hp] Hy. destruct (Nat.eq_dec i j) as [<-|N].
         * erewrite nth_error_upd_nth_eq in Hp by exact Ep. discriminate.
@@ -194,9 +196,6 @@ Section LockSerial.
   Qed.
 
   (** ** which operations are in the acquire log *)
-
-  Definition acquired (p : pc) : bool :=
-    match p with Running _ => true | Finished (RRet _) => true | _ => false end.
 
   Definition log_inv (st : sys) : Prop :=
     NoDup (acq_log st) /\
@@ -364,10 +363,8 @@ Section LockSerial.
 
   (** ** commutation of steps of operations with different lock keys *)
 
-  Definition sys_equiv (a c : sys) : Prop :=
-    (forall k, In k (locks a) <-> In k (locks c)) /\
-    (forall o, store a o = store c o) /\
-    pcs a = pcs c /\ ops a = ops c.
+  Lemma sys_equiv_refl a : sys_equiv a a.
+  Proof. unfold Lock.sys_equiv. repeat split; auto. Qed.
 
   Definition akey (a : Lock.action oid key data) : option key :=
     match a with
@@ -440,7 +437,7 @@ Section LockSerial.
     assert (Hupd : forall a c, upd_nth (upd_nth (pcs st) j a) i c = upd_nth (upd_nth (pcs st) i c) j a)
       by (intros a c; apply upd_nth_comm; congruence).
     destruct ai as [|ki bi|ki|ki oi vi ri|ki outi], aj as [|kj bj|kj|kj oj vj rj|kj outj];
-      unfold sys_equiv; cbn [Lock.apply_action locks store ops pcs];
+      unfold Lock.sys_equiv; cbn [Lock.apply_action locks store ops pcs];
       (split; [|split; [|split; [try reflexivity; try apply Hupd|reflexivity]]]);
       try (intros ?; reflexivity);
       try (assert (Hk : ki <> kj) by (apply K; reflexivity));
@@ -467,10 +464,10 @@ Section LockSerial.
     unfold Lock.step at 1 3. rewrite Hi, Hj. unfold Lock.step.
     destruct (nth_error (ops st) i) as [x|] eqn:Ex.
     2:{ rewrite (action_of_none_ops st i Ex). cbn [Lock.apply_action].
-        repeat split; reflexivity. }
+        apply sys_equiv_refl. }
     destruct (nth_error (ops st) j) as [y|] eqn:Ey.
     2:{ rewrite (action_of_none_ops st j Ey). cbn [Lock.apply_action].
-        repeat split; reflexivity. }
+        apply sys_equiv_refl. }
     destruct (action_of_key st i _ x eq_refl Ex) as [Ki Oi].
     destruct (action_of_key st j _ y eq_refl Ey) as [Kj Oj].
     apply apply_action_comm; [exact N| |].
